@@ -16,6 +16,8 @@ import (
 	"fmt"
 	"sort"
 	"strings"
+	"sync"
+	"sync/atomic"
 	"testing"
 
 	"github.com/XiaoMi/Gaea/models"
@@ -773,8 +775,237 @@ func c29SplitSample(r *kit.Rand) c29Case {
 	return c
 }
 
+// ---------------------------------------------------------------- concurrent administrators
+
+// c29AdminCall is one control-plane call of a script and what it returned.
+type c29AdminCall struct {
+	Call  string   `json:"call"` // prepare | commit | delete
+	NS    string   `json:"ns"`
+	Users []mgUser `json:"users,omitempty"`
+	Err   string   `json:"err,omitempty"`
+	Panic string   `json:"panic,omitempty"`
+}
+
+// c29ConcurrentRounds: on one manager with three namespaces that share the user name "a",
+// two administrators run a short script each, on different namespaces, at the same time
+// (no harness lock; a spin barrier plus a seeded number of spin iterations varies who is
+// first). Scripts: commit of a pending prepare / delete / prepare+commit. Because the two
+// scripts touch different namespaces, the credentials active afterwards follow from the
+// specification and the observed return values alone (an accepted commit activates the
+// pairs prepared for that namespace, a refused one changes nothing, a delete removes the
+// namespace's pairs); every pair old and new is then probed through the handshake path.
+func c29ConcurrentRounds(rec *kit.Rec, rig *c29Rig, r *kit.Rand, rounds int) {
+	nss := []string{"na", "nb", "nc"}
+	salt := r.Bytes(20)
+	counter := 0
+	fresh := func(ns string) []mgUser {
+		counter++
+		return []mgUser{{"a", fmt.Sprintf("%s:%d", ns, counter)}, {"u_" + ns, fmt.Sprintf("own:%d", counter)}}
+	}
+	var m *Manager
+	live := map[string][]mgUser{}
+	build := func() {
+		if m != nil {
+			mgDropManager(m)
+		}
+		var initial []*models.Namespace
+		for _, ns := range nss {
+			live[ns] = fresh(ns)
+			initial = append(initial, mgNamespaceConfig(ns, 0, live[ns]))
+		}
+		m = mgNewManager(rig.st, initial)
+	}
+	build()
+	defer func() { mgDropManager(m) }()
+	do := func(c *c29AdminCall) {
+		defer func() {
+			if p := recover(); p != nil {
+				c.Panic = fmt.Sprint(p)
+			}
+		}()
+		var err error
+		switch c.Call {
+		case "prepare":
+			err = m.ReloadNamespacePrepare(mgNamespaceConfig(c.NS, counter, c.Users))
+		case "commit":
+			err = m.ReloadNamespaceCommit(c.NS)
+		default:
+			err = m.DeleteNamespace(c.NS)
+		}
+		if err != nil {
+			c.Err = err.Error()
+		}
+	}
+	probe := func(u mgUser, wantNS string) (string, mgAuthResult) {
+		for _, ps := range c29Paths {
+			resp := mgNativeProof(salt, []byte(u.Password))
+			if ps.scheme == "sha2" {
+				resp = mgSha2Proof(salt, []byte(u.Password))
+			}
+			res := rig.sess.auth(m, u.User, salt, resp, ps.plugin)
+			switch {
+			case res.Panic != "":
+				return "panic", res
+			case wantNS != "" && !res.Accepted():
+				return "false-reject", res
+			case wantNS == "" && res.Accepted():
+				return "false-accept", res
+			case wantNS != "" && res.Namespace != wantNS:
+				return "wrong-namespace", res
+			}
+		}
+		return "", mgAuthResult{}
+	}
+	for round := 0; round < rounds; round++ {
+		mgThrottle(kit.N(120000, 250000), rec.Inconclusive)
+		perm := r.Perm(3)
+		x, y := nss[perm[0]], nss[perm[1]]
+		var scripts [2][]c29AdminCall
+		var pendingX []mgUser
+		kindX, kindY := []string{"commit", "delete", "put"}[r.Intn(3)], []string{"delete", "delete", "put"}[r.Intn(3)]
+		mk := func(kind, ns string) []c29AdminCall {
+			switch kind {
+			case "delete":
+				return []c29AdminCall{{Call: "delete", NS: ns}}
+			case "put":
+				us := fresh(ns)
+				return []c29AdminCall{{Call: "prepare", NS: ns, Users: us}, {Call: "commit", NS: ns}}
+			}
+			return []c29AdminCall{{Call: "commit", NS: ns}}
+		}
+		if kindX == "commit" {
+			// the prepare of x happens before the concurrent phase
+			pendingX = fresh(x)
+			pre := c29AdminCall{Call: "prepare", NS: x, Users: pendingX}
+			do(&pre)
+			if pre.Err != "" || pre.Panic != "" {
+				rec.Violation("concurrent-admins|operation-error|prepare", "sequential prepare failed: "+pre.Err+pre.Panic, pre)
+				build()
+				continue
+			}
+		}
+		scripts[0], scripts[1] = mk(kindX, x), mk(kindY, y)
+		old := map[string][]mgUser{x: live[x], y: live[y]}
+		var barrier int32
+		var wg sync.WaitGroup
+		delays := [2]int{r.Intn(400), r.Intn(400)}
+		for g := 0; g < 2; g++ {
+			wg.Add(1)
+			go func(g int) {
+				defer wg.Done()
+				atomic.AddInt32(&barrier, 1)
+				for atomic.LoadInt32(&barrier) < 2 {
+				}
+				spin := 0
+				for i := 0; i < delays[g]; i++ {
+					spin += i
+				}
+				_ = spin
+				for i := range scripts[g] {
+					do(&scripts[g][i])
+				}
+			}(g)
+		}
+		wg.Wait()
+		rec.Eval(1)
+		rec.Count("concurrent-admins.rounds", 1)
+		rec.Nontrivial(fmt.Sprintf("conc|%s|%s|%d|%d", kindX, kindY, delays[0]/50, delays[1]/50))
+		// expected credentials from the specification and the observed return values
+		apply := func(ns string, script []c29AdminCall, pending []mgUser) (panicked bool) {
+			prepared := pending
+			for _, c := range script {
+				if c.Panic != "" {
+					return true
+				}
+				switch c.Call {
+				case "prepare":
+					if c.Err == "" {
+						prepared = c.Users
+					}
+				case "commit":
+					if c.Err == "" {
+						live[ns] = prepared
+						rec.Count("concurrent-admins.commit-accepted", 1)
+					} else {
+						rec.Count("concurrent-admins.commit-refused", 1)
+					}
+				default:
+					if c.Err == "" {
+						delete(live, ns)
+					}
+				}
+			}
+			return false
+		}
+		witness := map[string]interface{}{"first": scripts[0], "second": scripts[1], "pending_prepare": pendingX, "before": old}
+		if apply(x, scripts[0], pendingX) || apply(y, scripts[1], nil) {
+			rec.Violation(fmt.Sprintf("concurrent-admins|panic|%s||%s", kindX, kindY), fmt.Sprintf("an administrator call panicked while %s(%s) and %s(%s) ran concurrently", kindX, x, kindY, y), witness)
+			build()
+			continue
+		}
+		// probe every pair that was, is or could have become active in this round
+		cands := map[mgUser]bool{}
+		for _, us := range [][]mgUser{old[x], old[y], pendingX, live[x], live[y]} {
+			for _, u := range us {
+				cands[u] = true
+			}
+		}
+		for _, sc := range scripts {
+			for _, c := range sc {
+				for _, u := range c.Users {
+					cands[u] = true
+				}
+			}
+		}
+		for _, ns := range nss {
+			for _, u := range live[ns] {
+				cands[u] = true
+			}
+		}
+		failed := false
+		for u := range cands {
+			want := ""
+			for ns, us := range live {
+				for _, o := range us {
+					if o == u {
+						want = ns
+					}
+				}
+			}
+			if clause, res := probe(u, want); clause != "" {
+				witness["failure"] = map[string]interface{}{"user": u.User, "password": u.Password, "expected_namespace": want, "observed": res}
+				rec.Violation(fmt.Sprintf("concurrent-admins|%s|%s||%s", clause, kindX, kindY),
+					fmt.Sprintf("%s(%s) and %s(%s) ran concurrently and returned %+v / %+v; afterwards %q/%q: %s (expected namespace %q, observed %+v)", kindX, x, kindY, y, scripts[0], scripts[1], u.User, u.Password, clause, want, res), witness)
+				failed = true
+				break
+			}
+		}
+		if failed {
+			build()
+			continue
+		}
+		// sequentially bring deleted namespaces back for the next round
+		for _, ns := range nss {
+			if _, ok := live[ns]; ok {
+				continue
+			}
+			us := fresh(ns)
+			p := c29AdminCall{Call: "prepare", NS: ns, Users: us}
+			do(&p)
+			c := c29AdminCall{Call: "commit", NS: ns}
+			do(&c)
+			if p.Err+p.Panic+c.Err+c.Panic != "" {
+				rec.Violation("concurrent-admins|operation-error|recreate", fmt.Sprintf("sequential prepare+commit of %s failed: %+v %+v", ns, p, c), witness)
+				build()
+				break
+			}
+			live[ns] = us
+		}
+	}
+}
+
 func TestVerif_C29(t *testing.T) {
-	rec := kit.Start("C29", "exploration", "histories on the real Manager: (1) every valid history of the small space (initial namespace with one user, then up to k single-user create/reload/delete operations over 2 namespaces, users {a, a:b} x passwords {a, b, a:b, b:a}); (2) seeded histories of the larger space (3 namespaces, 1..3 users per configuration, up to 6 operations, 5 user names x 8 passwords with ':' / '::' / ';'); (3) split control-plane operations: every history of exactly k operations over prepare / prepare refused by NewNamespace / commit / delete x 3 namespaces (two configured at start, the third absent or present-but-refused at start-up), and seeded histories of up to 8 operations mixing split and atomic operations; passwords are clear text or '*'-hash form for shared user names; after every step all user x password pairs are probed through 4 password-check paths against the set of pairs active under the abstract control-plane specification; non-trivial = distinct histories in which a namespace is changed while another one is live, or an operation falls between a prepare and a later commit")
+	rec := kit.Start("C29", "exploration", "histories on the real Manager: (1) every valid history of the small space (initial namespace with one user, then up to k single-user create/reload/delete operations over 2 namespaces, users {a, a:b} x passwords {a, b, a:b, b:a}); (2) seeded histories of the larger space (3 namespaces, 1..3 users per configuration, up to 6 operations, 5 user names x 8 passwords with ':' / '::' / ';'); (3) split control-plane operations: every history of exactly k operations over prepare / prepare refused by NewNamespace / commit / delete x 3 namespaces (two configured at start, the third absent or present-but-refused at start-up), and seeded histories of up to 8 operations mixing split and atomic operations; passwords are clear text or '*'-hash form for shared user names; (4) rounds in which two administrators run commit / delete / prepare+commit on different namespaces at the same time, credentials probed after each round; after every step all user x password pairs are probed through 4 password-check paths against the set of pairs active under the abstract control-plane specification; non-trivial = distinct histories in which a namespace is changed while another one is live, or an operation falls between a prepare and a later commit")
 	defer rec.Finish(t)
 	if err := mgInit(); err != nil {
 		t.Fatal(err)
@@ -783,6 +1014,7 @@ func TestVerif_C29(t *testing.T) {
 	rec.Assume("configurations are ones the control plane accepts: every namespace has users, user names unique inside a namespace, no empty name or password, a (user, password) pair never configured in two namespaces at once; in parts (1) and (2) create and reload are prepare immediately followed by commit")
 	rec.Assume("a namespace whose configuration NewNamespace refuses at start-up is not served: its pairs are not in the reference set (the unchanged tree registers its users but binds them to a namespace that does not exist, and Session.Handshake refuses that); a prepare that fails changes nothing, including what a later commit may activate")
 	rec.Assume("a pair whose password is stored in '*'-hash form is expected to be let in with the mysql_native_password proof of its clear text only; under caching_sha2_password no proof exists for it")
+	rec.Assume("concurrent administrators act on different namespaces, so the credentials active after a round follow from the specification and the observed return values whatever the order; which interleavings occur depends on the scheduler")
 	rec.Assume("split histories: prepare(n,cfg) records cfg as last prepared for n and changes no credential; commit(n) may be refused (no credential changes) or accepted (needs a configuration prepared for n; exactly its pairs replace n's pairs); delete(n) removes n's pairs; nothing else changes. Every password string of a split history belongs to one namespace, so every commit order is a valid configuration")
 	rec.Assume("'let in' means handleHandshakeResponse returned nil and the bound namespace exists in the manager (Session.Handshake refuses a session whose namespace does not exist)")
 	rec.Assume("in parts (1) and (2) the manager starts with exactly one namespace, so that CreateUserManager's map iteration cannot make outcomes differ between runs; split histories may start with two (their pairs are distinct strings); namespaces have no backend addresses")
@@ -921,6 +1153,11 @@ func TestVerif_C29(t *testing.T) {
 	rec.Set("split_sampled_histories", nSplit)
 	if invalid > 0 {
 		rec.Inconclusive(fmt.Sprintf("%d generated split histories were not valid configurations (generator bug)", invalid))
+	}
+	// two administrators at the same time on different namespaces
+	c29ConcurrentRounds(rec, rig, kit.SubRand(kit.Seed(), "C29/concurrent-admins"), kit.N(2500, 40000))
+	if rec.CounterValue("concurrent-admins.commit-accepted") == 0 {
+		rec.Inconclusive("concurrent administrators: no commit was accepted, the part observed nothing")
 	}
 	rec.Set("manager_histories_executed_including_shrinking", rig.runs)
 	rec.Count("manager.operations", rig.ops)
